@@ -73,7 +73,14 @@ def register(w):
     register_virtual_entries(w)
 
 
+def _html_props(w):
+    c = w.contracts.get(("pygopherd/handlers/html.py::HTMLFileTitleHandler.getentry", "HTMLFileTitleHandler"))
+    if c is not None:
+        c.props = set(c.props) | {"C04", "C13"}
+
+
 def register_virtual_entries(w):
+    w.finalizers.append(_html_props)
     """getentry of the handlers that do not describe a file: each is shown to satisfy the AnyHandler.getentry
     interface the protocols are verified against (raises nothing, advertises no size it cannot keep)."""
     H = "pygopherd/handlers/"
